@@ -1,6 +1,7 @@
 use core::cell::RefCell;
 use core::num::NonZeroU32;
 
+use alloc::collections::BTreeSet;
 use alloc::vec::Vec;
 
 use crate::errors::{DaachorseError, Result};
@@ -57,6 +58,8 @@ pub struct NfaBuilder<L, V> {
     pub(crate) outputs: Vec<Output<V>>, // in which common parts are merged.
     pub(crate) len: usize,
     pub(crate) match_kind: MatchKind,
+    // Patterns skipped by the leftmost-first rule, kept only to detect duplicates among them.
+    shadowed: BTreeSet<Vec<L>>,
 }
 
 impl<L, V> NfaBuilder<L, V>
@@ -73,6 +76,7 @@ where
             outputs: vec![],
             len: 0,
             match_kind,
+            shadowed: BTreeSet::new(),
         }
     }
 
@@ -92,6 +96,10 @@ where
                 // If state_id has an output, the descendants will never searched.
                 let output = &self.states[usize::from_u32(state_id)].borrow().output;
                 if output.is_some() {
+                    // The pattern is never reported, but a repeated pattern is still an error.
+                    if self.is_registered(pattern) || !self.shadowed.insert(pattern.to_vec()) {
+                        return Err(DaachorseError::duplicate_pattern(format!("{pattern:?}")));
+                    }
                     return Ok(());
                 }
             }
@@ -223,6 +231,22 @@ where
                 s.output_pos = self.states[usize::from_u32(s.fail)].borrow().output_pos;
             }
         }
+    }
+
+    /// Checks if the pattern ends at a state that already has an output.
+    fn is_registered(&self, pattern: &[L]) -> bool {
+        let mut state_id = ROOT_STATE_ID;
+        for &c in pattern {
+            if let Some(next_state_id) = self.child_id(state_id, c) {
+                state_id = next_state_id;
+            } else {
+                return false;
+            }
+        }
+        self.states[usize::from_u32(state_id)]
+            .borrow()
+            .output
+            .is_some()
     }
 
     #[inline(always)]
